@@ -5,7 +5,7 @@ From Coq Require Import List NArith Lia Bool PeanoNat.
 From Coq Require Import ZifyBool ZifyN ZifyNat.
 From Minimq Require Import Bytes Varint Utf8 Props Ser De Reader Spec Arena Core Show Machine Parse Run Util Lts Refine
   VarintProofs SerLemmas CodecProofs BrokerProofs ArenaLemmas ArenaOps Inv Quota Status Persist Frames Limits Reach WireInv Chunking Wire Measure
-  Terminate KeepAlive ConnectOk PingQuiet Healthy Owed Sends Pings Framing Liveness PingAt PollReads Exchange Exchange2 Exchange3.
+  Terminate KeepAlive ConnectOk PingQuiet Healthy Owed Sends Pings Framing Liveness PingAt PollReads Exchange Exchange2 Exchange3 CfgFrame.
 Import ListNotations.
 Local Open Scope N_scope.
 Local Opaque u16_be.
@@ -204,6 +204,7 @@ Theorem qos1_exchange_idle : forall w r s2 op ps,
     rt_quota (s_rt (w_sess w2)) = N.min (N.min (rt_quota (s_rt (w_sess w)) - 1 + 1) 65535) (rt_maxquota (s_rt (w_sess w))) /\
     rt_maxquota (s_rt (w_sess w2)) = rt_maxquota (s_rt (w_sess w)) /\ rt_quota (s_rt (w_sess w)) <> 0 /\
     ob_cap (s_ob (w_sess w2)) = ob_cap (s_ob (w_sess w)) /\
+    rt_maxqos (s_rt (w_sess w2)) = rt_maxqos (s_rt (w_sess w)) /\
     Idle w2.
 Proof.
   intros w r s2 op ps [Hcw [Ec [El [Er [Hka [Hnp [Hpt [Hbr [Htx [Hiq [Hla [Hrd [Hrp Hcap]]]]]]]]]]]]] Hm Hq1 Hps Hid.
@@ -243,6 +244,8 @@ Proof.
             rewrite Rt1, Rt2; reflexivity|].
     split; [exact Hq0|].
     split; [rewrite S2, Eo4; unfold ob_cap; cbn [compact compact_go ob_buf]; rewrite Bu1; exact Hlen2|].
+    split; [rewrite S2; unfold s4; cbn [set_rt s_rt quota_inc rt_with_quota rt_maxqos]; unfold s3; cbn [set_reader s_rt];
+            rewrite Rt1, Rt2; reflexivity|].
     assert (A1 : w_now w <= w_now w1) by (rewrite N1; apply N.le_refl).
     assert (A2 : 6 <= rcap (rd w1)) by (rewrite K1; exact Hcap).
     assert (A3 : sstep s3 (LPacket (ack_type_ok s3 (RPubAck (op_pid op) 0))) s4).
@@ -297,7 +300,7 @@ Proof.
     destruct (publish_accepted_idle (w_sess w) r Q1 Er Hmps Hq0 Hcap Hv He ltac:(discriminate) Henc) as [s2 [op Hm]].
     destruct (publish_middle_retained_rt _ _ _ _ Hm) as [_ [_ Hid]]. specialize (Hid (proj1 I0)).
     destruct (qos1_exchange_idle w r s2 op ps Hi Hm He Hps Hid)
-      as [w1 [w2 [bs [cap [off [E1 [Hb [Hw1 [E2 [Hw2 [Hn2 [Hr2 [Hqu [Hmq [_ [Hc2 Hi2]]]]]]]]]]]]]]]].
+      as [w1 [w2 [bs [cap [off [E1 [Hb [Hw1 [E2 [Hw2 [Hn2 [Hr2 [Hqu [Hmq [_ [Hc2 [_ Hi2]]]]]]]]]]]]]]]]].
     assert (HI2 : IdleQ w2).
     { split; [exact Hi2|]. rewrite Hqu, Hmq, Hc2. repeat split; try assumption; lia. }
     specialize (Hnext w1 (Some op) w2 E1 E2). rewrite <- Hc2 in Hnext.
@@ -530,6 +533,7 @@ Theorem qos2_exchange_idle : forall w r s2 op ps,
     rt_quota (s_rt (w_sess w3)) = N.min (N.min (rt_quota (s_rt (w_sess w)) - 1 + 1) 65535) (rt_maxquota (s_rt (w_sess w))) /\
     rt_maxquota (s_rt (w_sess w3)) = rt_maxquota (s_rt (w_sess w)) /\ rt_quota (s_rt (w_sess w)) <> 0 /\
     ob_cap (s_ob (w_sess w3)) = ob_cap (s_ob (w_sess w)) /\
+    rt_maxqos (s_rt (w_sess w3)) = rt_maxqos (s_rt (w_sess w)) /\
     Idle w3.
 Proof.
   intros w r s2 op ps [Hcw [Ec [El [Er [Hka [Hnp [Hpt [Hbr [Htx [Hiq [Hla [Hrd [Hrp Hcap]]]]]]]]]]]]] Hm Hq2 Hps Hid.
@@ -544,7 +548,7 @@ Proof.
   assert (H3 : rplen (rd w1) = None) by (unfold rd; rewrite R1; exact Hrp).
   destruct (poll_pubrec_sends_pubrel_rt w1 (op_pid op) e (w_now w) Hc1 Hid H1 H2 H3 Ec1 El1 Er1 Epid Ka1 Np1 Pt1 Br1 Tx1 Hi1
               ltac:(rewrite N1; apply N.le_refl) ltac:(rewrite La1, N1; apply N.le_refl))
-    as [w2 [E2 [Hw2 [Hi2 [Hc2 [D2 [P2 [K2 [N2 [Ec2 [Er2 [El2 [Ka2 [Np2 [Pt2 [B2 [T2 [La2 [Qu2 [Mq2 [Bu2 Mp2]]]]]]]]]]]]]]]]]]]]].
+    as [w2 [E2 [Hw2 [Hi2 [Hc2 [D2 [P2 [K2 [N2 [Ec2 [Er2 [El2 [Ka2 [Np2 [Pt2 [B2 [T2 [La2 [Qu2 [Mq2 [Bu2 [Mp2 Mqs2]]]]]]]]]]]]]]]]]]]]]].
   pose proof Hc2 as [Hs2 [Hl2 [I2 [_ [_ [HB2 _]]]]]].
   (* the PUBCOMP *)
   set (pid := op_pid op) in *.
@@ -577,6 +581,8 @@ Proof.
             rewrite Mq2, Rt1, Rt2; reflexivity|].
     split; [exact Hq0|].
     split; [rewrite S3; unfold ob_cap, s4; cbn [set_rt set_ob s_ob ob_buf]; unfold s3; cbn [set_reader s_ob]; rewrite Bu2, Bu1; exact Hlen2|].
+    split; [rewrite S3; unfold s4; cbn [set_rt s_rt quota_inc rt_with_quota rt_maxqos]; unfold s3; cbn [set_reader s_rt];
+            rewrite Mqs2, Rt1, Rt2; reflexivity|].
     assert (A1 : w_now w1 <= w_now w2) by (rewrite N2; apply N.le_refl).
     assert (A2 : 6 <= rcap (rd w2)) by (rewrite K2, K1; exact Hcap).
     assert (A3 : sstep s3 (LPacket (ack_type_ok s3 (RPubComp pid 0))) s4).
@@ -673,7 +679,8 @@ Theorem exchange_idle : forall w q,
   IdleQ w -> request_ok (ob_cap (s_ob (w_sess w))) w q ->
   exists op w2, exchange w q op w2 /\
     has_retained (s_ob (w_sess w2)) (op_pid op) = false /\ has_pending_release (s_ob (w_sess w2)) (op_pid op) = false /\
-    w_now w2 = w_now w /\ ob_cap (s_ob (w_sess w2)) = ob_cap (s_ob (w_sess w)) /\ IdleQ w2.
+    w_now w2 = w_now w /\ ob_cap (s_ob (w_sess w2)) = ob_cap (s_ob (w_sess w)) /\ IdleQ w2 /\
+    rt_maxqos (s_rt (w_sess w2)) = rt_maxqos (s_rt (w_sess w)).
 Proof.
   intros w q [Hi [Hq1 [Hq2 [Hq3 Hcap]]]] Hok.
   pose proof Hi as [Hcw [Ec [El [Er _]]]]. pose proof Hcw as [_ [_ [I0 [Hmps _]]]].
@@ -686,13 +693,13 @@ Proof.
     destruct (publish_middle_retained_rt _ _ _ _ Hm) as [_ [_ Hid]]. specialize (Hid (proj1 I0)).
     destruct (effective_qos (w_sess w) (pr_qos r)) eqn:He; [contradiction| |].
     + destruct (qos1_exchange_idle w r s2 op ps Hi Hm He Hps Hid)
-        as [w1 [w2 [bs [cap [off [E1 [_ [_ [E2 [_ [Hn2 [Hr2 [Hqu [Hmq [_ [Hc2 Hi2]]]]]]]]]]]]]]]].
+        as [w1 [w2 [bs [cap [off [E1 [_ [_ [E2 [_ [Hn2 [Hr2 [Hqu [Hmq [_ [Hc2 [Hmqs Hi2]]]]]]]]]]]]]]]]].
       exists op, w2. split; [eapply ex_q1; eassumption|]. split; [exact Hr2|]. split; [apply Hrel_none; exact Hi2|].
-      split; [exact Hn2|]. split; [exact Hc2|]. split; [exact Hi2|]. rewrite Hqu, Hmq, Hc2. repeat split; try assumption; lia.
+      split; [exact Hn2|]. split; [exact Hc2|]. split; [|exact Hmqs]. split; [exact Hi2|]. rewrite Hqu, Hmq, Hc2. repeat split; try assumption; lia.
     + destruct (qos2_exchange_idle w r s2 op ps Hi Hm He Hps Hid)
-        as [w1 [w2 [w3 [bs [cap [off [E1 [_ [_ [E2 [_ [E3 [_ [Hn3 [Hr3 [Hp3 [Hqu [Hmq [_ [Hc3 Hi3]]]]]]]]]]]]]]]]]]]].
+        as [w1 [w2 [w3 [bs [cap [off [E1 [_ [_ [E2 [_ [E3 [_ [Hn3 [Hr3 [Hp3 [Hqu [Hmq [_ [Hc3 [Hmqs Hi3]]]]]]]]]]]]]]]]]]]]].
       exists op, w3. split; [eapply ex_q2; eassumption|]. split; [exact Hr3|]. split; [exact Hp3|].
-      split; [exact Hn3|]. split; [exact Hc3|]. split; [exact Hi3|]. rewrite Hqu, Hmq, Hc3. repeat split; try assumption; lia.
+      split; [exact Hn3|]. split; [exact Hc3|]. split; [|exact Hmqs]. split; [exact Hi3|]. rewrite Hqu, Hmq, Hc3. repeat split; try assumption; lia.
   - destruct Hok as [Hne [Hv Henc]].
     destruct (enqueue_accepted_idle (w_sess w) 2 (fun cap id => enc_subscribe cap {| sq_pid := id; sq_props := ps; sq_topics := topics |}) Er Hmps Henc)
       as [s2 [op Hm]].
@@ -700,7 +707,7 @@ Proof.
     destruct (subscribe_exchange_idle w topics ps s2 op Hi Hne Hv Hm Hid)
       as [w1 [w2 [bs [cap [off [E1 [_ [_ [E2 [_ [Hn2 [Hr2 [Hrt [Hc2 Hi2]]]]]]]]]]]]]].
     exists op, w2. split; [eapply ex_sub; eassumption|]. split; [exact Hr2|]. split; [apply Hrel_none; exact Hi2|].
-    split; [exact Hn2|]. split; [exact Hc2|]. split; [exact Hi2|]. rewrite Hrt, Hc2. repeat split; assumption.
+    split; [exact Hn2|]. split; [exact Hc2|]. split; [|rewrite Hrt; reflexivity]. split; [exact Hi2|]. rewrite Hrt, Hc2. repeat split; assumption.
   - destruct Hok as [Hne [Hv Henc]].
     destruct (enqueue_accepted_idle (w_sess w) 3 (fun cap id => enc_unsubscribe cap {| uq_pid := id; uq_props := ps; uq_topics := topics |}) Er Hmps Henc)
       as [s2 [op Hm]].
@@ -708,7 +715,7 @@ Proof.
     destruct (unsubscribe_exchange_idle w topics ps s2 op Hi Hne Hv Hm Hid)
       as [w1 [w2 [bs [cap [off [E1 [_ [_ [E2 [_ [Hn2 [Hr2 [Hrt [Hc2 Hi2]]]]]]]]]]]]]].
     exists op, w2. split; [eapply ex_unsub; eassumption|]. split; [exact Hr2|]. split; [apply Hrel_none; exact Hi2|].
-    split; [exact Hn2|]. split; [exact Hc2|]. split; [exact Hi2|]. rewrite Hrt, Hc2. repeat split; assumption.
+    split; [exact Hn2|]. split; [exact Hc2|]. split; [|rewrite Hrt; reflexivity]. split; [exact Hi2|]. rewrite Hrt, Hc2. repeat split; assumption.
 Qed.
 
 (* every history of acknowledged operations, of any length and in any order, completes every one of them *)
@@ -719,10 +726,56 @@ Proof.
   induction qs as [|q qs IH]; intros w HI HW.
   - exists w. split; [constructor|]. split; [exact HI|reflexivity].
   - cbn [wanted_all] in HW. destruct HW as [Hok Hnext].
-    destruct (exchange_idle w q HI Hok) as [op [w2 [Hex [Hr [Hp [Hn [Hc HI2]]]]]]].
+    destruct (exchange_idle w q HI Hok) as [op [w2 [Hex [Hr [Hp [Hn [Hc [HI2 _]]]]]]]].
     specialize (Hnext op w2 Hex). rewrite <- Hc in Hnext.
     destruct (IH w2 HI2 Hnext) as [w' [Hh [HI' Hn']]].
     exists w'. split; [econstructor; eassumption|]. split; [exact HI'|]. rewrite Hn'. exact Hn.
+Qed.
+
+(* ---------------------------------------------------------------- the same with the requests judged once, against the initial session *)
+(* an exchange changes neither the configuration nor the broker's Maximum QoS, so a request is the same QoS for every session
+   of the history *)
+Lemma exchange_cfg : forall w q op w2, exchange w q op w2 -> s_cfg (w_sess w2) = s_cfg (w_sess w).
+Proof.
+  intros w q op w2 H. destruct H as [w r op w1 w2 _ E1 E2|w r op w1 w2 w3 _ E1 E2 E3|w t ps op w1 w2 E1 E2|w t ps op w1 w2 E1 E2].
+  - pose proof (op_poll_cfg FUEL w1) as A. rewrite E2 in A. pose proof (op_publish_cfg FUEL r w) as B. rewrite E1 in B. cbn [fst] in A, B. congruence.
+  - pose proof (op_poll_cfg FUEL w2) as A0. rewrite E3 in A0. pose proof (op_poll_cfg FUEL w1) as A. rewrite E2 in A.
+    pose proof (op_publish_cfg FUEL r w) as B. rewrite E1 in B. cbn [fst] in A0, A, B. congruence.
+  - pose proof (op_poll_cfg FUEL w1) as A. rewrite E2 in A. pose proof (op_subscribe_cfg FUEL t ps w) as B. rewrite E1 in B. cbn [fst] in A, B. congruence.
+  - pose proof (op_poll_cfg FUEL w1) as A. rewrite E2 in A. pose proof (op_unsubscribe_cfg FUEL t ps w) as B. rewrite E1 in B. cbn [fst] in A, B. congruence.
+Qed.
+
+Lemma request_ok_same_view : forall cap w w' q,
+  s_cfg (w_sess w') = s_cfg (w_sess w) -> rt_maxqos (s_rt (w_sess w')) = rt_maxqos (s_rt (w_sess w)) ->
+  request_ok cap w q -> request_ok cap w' q.
+Proof.
+  intros cap w w' q Hc Hm H. destruct q as [r|t ps|t ps]; cbn [request_ok] in *; [|exact H|exact H].
+  assert (E : forall x, effective_qos (w_sess w') x = effective_qos (w_sess w) x) by (intros x; unfold effective_qos; rewrite Hc, Hm; reflexivity).
+  rewrite !E. exact H.
+Qed.
+
+Theorem history_completes_static : forall qs w,
+  IdleQ w -> Forall (request_ok (ob_cap (s_ob (w_sess w))) w) qs ->
+  exists w', history w qs w' /\ IdleQ w' /\ w_now w' = w_now w.
+Proof.
+  intros qs w HI HF.
+  assert (G : forall qs w0, IdleQ w0 ->
+               s_cfg (w_sess w0) = s_cfg (w_sess w) -> rt_maxqos (s_rt (w_sess w0)) = rt_maxqos (s_rt (w_sess w)) ->
+               ob_cap (s_ob (w_sess w0)) = ob_cap (s_ob (w_sess w)) ->
+               Forall (request_ok (ob_cap (s_ob (w_sess w))) w) qs ->
+               exists w', history w0 qs w' /\ IdleQ w' /\ w_now w' = w_now w0).
+  { clear qs HF. induction qs as [|q qs IH]; intros w0 HI0 Hc Hm Hcap HF.
+    - exists w0. split; [constructor|]. split; [exact HI0|reflexivity].
+    - inversion HF as [|? ? Hq HF']; subst.
+      assert (Hok : request_ok (ob_cap (s_ob (w_sess w0))) w0 q) by (rewrite Hcap; eapply request_ok_same_view; eassumption).
+      destruct (exchange_idle w0 q HI0 Hok) as [op [w2 [Hex [Hr [Hp [Hn [Hc2 [HI2 Hm2]]]]]]]].
+      destruct (IH w2 HI2) as [w' [Hh [HI' Hn']]].
+      + rewrite (exchange_cfg _ _ _ _ Hex). exact Hc.
+      + rewrite Hm2. exact Hm.
+      + rewrite Hc2. exact Hcap.
+      + exact HF'.
+      + exists w'. split; [econstructor; eassumption|]. split; [exact HI'|]. rewrite Hn'. exact Hn. }
+  exact (G qs w HI eq_refl eq_refl eq_refl HF).
 Qed.
 
 Lemma exchange_sub_inv : forall w topics ps op w2, exchange w (ReqSubscribe topics ps) op w2 ->
@@ -757,4 +810,37 @@ Proof.
     + cbn [ex_req_q2 request_ok]. split; [exact V2|]. split; [exists []; reflexivity|].
       split; [intros X; pose proof (eq_trans (eq_sym E2) X) as Y; discriminate Y|exact F2].
     + intros; exact I.
+Qed.
+
+(* the static form needs no intermediate worlds: all four kinds of request, judged against the fresh connection *)
+Example static_history_hyps_met :
+  IdleQ ex_b1 /\
+  Forall (request_ok (ob_cap (s_ob (w_sess ex_b1))) ex_b1) [ex_req_sub; ex_req_q2; ReqPublish ex_pub; ReqUnsubscribe [ex_filter] []; ex_req_q2].
+Proof.
+  destruct history_hyps_met as [HI _]. split; [exact HI|].
+  assert (V1 : props_valid_for (PSlice []) CtxSubscribe = true) by (vm_compute; reflexivity).
+  assert (V2 : props_valid_for (pr_props ex_pubq2) CtxPublish = true) by (vm_compute; reflexivity).
+  assert (V3 : props_valid_for (pr_props ex_pub) CtxPublish = true) by (vm_compute; reflexivity).
+  assert (V4 : props_valid_for (PSlice []) CtxUnsubscribe = true) by (vm_compute; reflexivity).
+  assert (E2 : effective_qos (w_sess ex_b1) (pr_qos ex_pubq2) = Q2) by (vm_compute; reflexivity).
+  assert (E3 : effective_qos (w_sess ex_b1) (pr_qos ex_pub) = Q1) by (vm_compute; reflexivity).
+  assert (F1 : forall id, exists off bs, enc_subscribe (ob_cap (s_ob (w_sess ex_b1))) {| sq_pid := id; sq_props := []; sq_topics := [(ex_filter, ex_so1)] |} = SOk off bs)
+    by (intros id; eexists; eexists; vm_compute; reflexivity).
+  assert (F2 : forall id, exists off bs, enc_publish (ob_cap (s_ob (w_sess ex_b1))) (pub_request ex_pubq2 (effective_qos (w_sess ex_b1) (pr_qos ex_pubq2)) id) = SOk off bs)
+    by (intros id; eexists; eexists; vm_compute; reflexivity).
+  assert (F3 : forall id, exists off bs, enc_publish (ob_cap (s_ob (w_sess ex_b1))) (pub_request ex_pub (effective_qos (w_sess ex_b1) (pr_qos ex_pub)) id) = SOk off bs)
+    by (intros id; eexists; eexists; vm_compute; reflexivity).
+  assert (F4 : forall id, exists off bs, enc_unsubscribe (ob_cap (s_ob (w_sess ex_b1))) {| uq_pid := id; uq_props := []; uq_topics := [ex_filter] |} = SOk off bs)
+    by (intros id; eexists; eexists; vm_compute; reflexivity).
+  assert (R2 : request_ok (ob_cap (s_ob (w_sess ex_b1))) ex_b1 ex_req_q2).
+  { cbn [ex_req_q2 request_ok]. split; [exact V2|]. split; [exists []; reflexivity|].
+    split; [intros X; pose proof (eq_trans (eq_sym E2) X) as Y; discriminate Y|exact F2]. }
+  assert (R1 : request_ok (ob_cap (s_ob (w_sess ex_b1))) ex_b1 ex_req_sub)
+    by (cbn [ex_req_sub request_ok]; split; [discriminate|]; split; [exact V1|exact F1]).
+  assert (R3 : request_ok (ob_cap (s_ob (w_sess ex_b1))) ex_b1 (ReqPublish ex_pub)).
+  { cbn [request_ok]. split; [exact V3|]. split; [exists []; reflexivity|].
+    split; [intros X; pose proof (eq_trans (eq_sym E3) X) as Y; discriminate Y|exact F3]. }
+  assert (R4 : request_ok (ob_cap (s_ob (w_sess ex_b1))) ex_b1 (ReqUnsubscribe [ex_filter] []))
+    by (cbn [request_ok]; split; [discriminate|]; split; [exact V4|exact F4]).
+  exact (Forall_cons _ R1 (Forall_cons _ R2 (Forall_cons _ R3 (Forall_cons _ R4 (Forall_cons _ R2 (Forall_nil _)))))).
 Qed.
